@@ -58,7 +58,11 @@ func Revoke(w http.ResponseWriter, r *http.Request, revoker Revoker) {
 		}
 	}
 	if doDecrypt {
-		tokenID, userID, ok := getTokenIDAndSubjectForRevocation(r.Context(), revoker, token)
+		tokenID, userID, ok, err := getTokenIDAndSubjectForRevocation(r.Context(), revoker, token)
+		if err != nil {
+			RevocationRequestError(w, r, err)
+			return
+		}
 		if ok {
 			token = tokenID
 			subject = userID
@@ -155,7 +159,7 @@ func RevocationError(err error) StatusError {
 	return NewStatusError(e, status)
 }
 
-func getTokenIDAndSubjectForRevocation(ctx context.Context, userinfoProvider UserinfoProvider, accessToken string) (string, string, bool) {
+func getTokenIDAndSubjectForRevocation(ctx context.Context, userinfoProvider UserinfoProvider, accessToken string) (string, string, bool, error) {
 	ctx, span := tracer.Start(ctx, "getTokenIDAndSubjectForRevocation")
 	defer span.End()
 
@@ -163,13 +167,17 @@ func getTokenIDAndSubjectForRevocation(ctx context.Context, userinfoProvider Use
 	if err == nil {
 		splitToken := strings.Split(tokenIDSubject, ":")
 		if len(splitToken) != 2 {
-			return "", "", false
+			return "", "", false, nil
 		}
-		return splitToken[0], splitToken[1], true
+		return splitToken[0], splitToken[1], true, nil
 	}
 	accessTokenClaims, err := VerifyAccessToken[*oidc.AccessTokenClaims](ctx, accessToken, userinfoProvider.AccessTokenVerifier(ctx))
 	if err != nil {
-		return "", "", false
+		if errors.Is(err, errKeySetUnavailable) {
+			// the token could not be identified: do not answer as if it had been revoked
+			return "", "", false, oidc.ErrServerError().WithParent(err)
+		}
+		return "", "", false, nil
 	}
-	return accessTokenClaims.JWTID, accessTokenClaims.Subject, true
+	return accessTokenClaims.JWTID, accessTokenClaims.Subject, true, nil
 }
